@@ -492,7 +492,8 @@ func Peers() []wm.NPPeer {
 	}
 }
 
-var Ports = [][]wm.NPPort{nil, {{HasPort: true, Num: 80}}, {{HasPort: true, Name: "http"}}, {{HasPort: true, Name: "http"}, {HasPort: true, Num: 80}}, {{HasPort: true, Num: 53, Proto: "UDP"}, {HasPort: true, Name: "web"}}}
+var Ports = [][]wm.NPPort{nil, {{HasPort: true, Num: 80}}, {{HasPort: true, Name: "http"}}, {{HasPort: true, Name: "http"}, {HasPort: true, Num: 80}}, {{HasPort: true, Num: 53, Proto: "UDP"}, {HasPort: true, Name: "web"}},
+	{{HasPort: true, Name: "web", Proto: "UDP"}}} // protocol differs from the one w1 declares for "web"
 
 func Rules() []wm.NPRule {
 	var rules []wm.NPRule
@@ -527,9 +528,6 @@ func Scopes(quick bool) []Scope {
 			dir := fw.Pick(c, []string{"Ingress", "Egress"}, "direction")
 			r1 := c.Choose(len(rules), "rule 1")
 			r2 := c.Choose(len(rules)+1, "rule 2 (0=none)")
-			if quick {
-				c.Stride(3)
-			}
 			w := baseWorld()
 			np := wm.NP{NS: "ns1", Name: "p", PodSel: *ml("app", "a"), Types: []string{dir}}
 			rs := []wm.NPRule{rules[r1]}
